@@ -17,7 +17,15 @@ RULE = ('spec trees of depth <= 3 (quick) / 4 (thorough) built from nestings of 
         'something different in every mode), T, instrumented callables; plus Fill over random literal container shapes '
         '(dict/list/tuple/set/frozenset nested to depth 3) with T / Spec / Val / callable leaves; plus containers with T leaves '
         'in argument position (Coalesce default, Call args/kwargs, S(k=..) value, Fill) evaluated once per record of a '
-        'list of distinct records after an access step of the same chain. Observed: result, '
+        'list of distinct records after an access step of the same chain (empty containers included, also nested, and '
+        'the defaults of Match / Switch / And / Or); 6% of the cases are self-referential container graphs (1-4 list / dict / '
+        'tuple nodes on a cycle through node 0, extra back / cross / shared references, T / Spec / literal / callable '
+        'leaves, 6% failing leaves) in an argument position (Coalesce / Match / Switch / Or default, S(x=..) + S.x, '
+        'Call args, T.get(k, arg)), optionally under Fill / Auto, evaluated with one spec object for 2-3 targets; '
+        'the result graph is compared in canonical form (list / dict nodes numbered in first-visit order). Every '
+        'case is evaluated twice on the same spec object with every container glom created for the first result '
+        'mutated in between; no mutable container of the spec may be part of a result or reach a callable; a '
+        'top-level Fill spec is also run through Fill.fill(target). Observed: result, '
         'ordered call log and the (probe id, mode) log. non-trivial = at least one wrapper and one probe or '
         'mode-sensitive object; distinct = distinct (target, spec)')
 TRUSTED = ['Python primitives are parameters of the theorems (`Prims`); their executable instantiation is validated by '
@@ -41,9 +49,188 @@ MANIFEST = dict(
     ref='DESIGN.md §3 C08')
 
 
+# ---------------------------------------------------------------- self-referential containers
+CYC_POSITIONS = ['coalesce', 'sbind', 'call', 'tget', 'match_dflt', 'switch_dflt', 'or_dflt']
+
+
+def gen_cyclic(rng):
+    """a container graph with at least one cycle (list / dict nodes containing themselves, each other, shared
+    nodes, tuples on the way) with T / Spec / literal / callable leaves, placed in an argument position and
+    evaluated (same spec object) for two or three different targets"""
+    n = rng.randint(1, 4)
+    kinds = [rng.choice(['list', 'list', 'dict'])] + [rng.choice(['list', 'list', 'dict', 'dict', 'tuple']) for _ in range(n - 1)]
+    mut = [i for i, k in enumerate(kinds) if k != 'tuple']
+
+    def leaf():
+        p = rng.random()
+        if p < 0.4:
+            return {'leaf': {'k': 't', 'steps': [['[', ic.enc(rng.choice(['id', 'id', 'name', 'pair']))]]}}
+        if p < 0.5:
+            return {'leaf': {'k': 't', 'steps': []}}
+        if p < 0.6:
+            return {'leaf': {'k': 'specW', 's': {'k': 'str', 's': rng.choice(['id', 'sub.x'])}, 'scope': []}}
+        if p < 0.7:
+            return {'leaf': {'k': 'str', 's': rng.choice(['id', 'lit'])}}
+        if p < 0.8:
+            return {'leaf': {'k': 'fn', 'name': 'f1', 'kind': 'len'}}
+        if p < 0.86:
+            return {'leaf': {'k': 't', 'steps': [['[', ic.enc('nokey')]]}}          # a failing leaf
+        return {'leaf': {'k': 'lit', 'v': ic.enc(rng.choice([1, None, True]))}}
+
+    def item(i):
+        if rng.random() < 0.45:
+            # tuples may only point at list / dict nodes (a cycle always passes through a mutable node)
+            return {'ref': rng.choice(mut if kinds[i] == 'tuple' else list(range(n)))}
+        return leaf()
+    nodes = []
+    for i, k in enumerate(kinds):
+        items = [item(i) for _ in range(rng.randint(0, 3))]
+        # a chain through all nodes back to node 0: every node is reachable and lies on a cycle
+        nxt = (i + 1) % n
+        if kinds[i] == 'tuple' and kinds[nxt] == 'tuple':
+            nxt = 0
+        items.insert(rng.randint(0, len(items)), {'ref': nxt})
+        if k == 'dict':
+            nodes.append({'t': 'dict', 'es': [[{'leaf': {'k': 'str', 's': 'k%d' % m}}, it] for m, it in enumerate(items)]})
+        else:
+            nodes.append({'t': k, 'xs': items})
+    targets = []
+    for m in range(rng.randint(2, 3)):
+        t = {'id': m * 10 + rng.randint(0, 5), 'sub': {'x': [m]}, 'pair': (m, 'p')}
+        if rng.random() < 0.6:
+            t['name'] = 'n%d' % m
+        targets.append(ic.enc(t))
+    return {'kind': 'cyclic', 'pos': rng.choice(CYC_POSITIONS), 'wrap': rng.choice([None, None, 'fill', 'auto']),
+            'nodes': nodes, 'root': {'ref': 0}, 'targets': targets}
+
+
+def build_graph(case, fns):
+    """the Python objects of a container graph: list / dict nodes first (empty), then tuples, then the contents"""
+    nodes = case['nodes']
+    objs = [None] * len(nodes)
+    for i, nd in enumerate(nodes):
+        if nd['t'] != 'tuple':
+            objs[i] = ic._reg(fns, 'spec-containers', [] if nd['t'] == 'list' else {})
+
+    def item(it):
+        if 'ref' in it:
+            if objs[it['ref']] is None:
+                objs[it['ref']] = tuple(item(x) for x in nodes[it['ref']]['xs'])
+            return objs[it['ref']]
+        return ic.build(it['leaf'], fns)
+    for i, nd in enumerate(nodes):
+        if nd['t'] == 'tuple' and objs[i] is None:
+            objs[i] = tuple(item(x) for x in nd['xs'])
+    for i, nd in enumerate(nodes):
+        if nd['t'] == 'list':
+            objs[i].extend(item(x) for x in nd['xs'])
+        elif nd['t'] == 'dict':
+            for k, v in nd['es']:
+                objs[i][item(k)] = item(v)
+    return item(case['root'])
+
+
+def enc_graph(v, given, seen):
+    """canonical form of a result graph: list / dict objects numbered in first-visit order (objects that
+    belong to the target are leaf values), tuples structurally"""
+    if type(v) in (list, dict) and id(v) not in given:
+        if id(v) in seen:
+            return {'ref': seen[id(v)]}
+        n = len(seen)
+        seen[id(v)] = n
+        if type(v) is list:
+            return {'list': n, 'xs': [enc_graph(x, given, seen) for x in v]}
+        return {'dict': n, 'es': [[enc_graph(k, given, seen), enc_graph(x, given, seen)] for k, x in v.items()]}
+    if type(v) is tuple:
+        return {'tuple': [enc_graph(x, given, seen) for x in v]}
+    return {'leaf': ic.enc(v)}
+
+
+def graph_nodes(v, given, seen=None):
+    seen = {} if seen is None else seen
+    if type(v) in (list, dict) and id(v) not in given and id(v) not in seen:
+        seen[id(v)] = v
+        for x in (v if type(v) is list else [y for kv in v.items() for y in kv]):
+            graph_nodes(x, given, seen)
+    elif type(v) is tuple:
+        for x in v:
+            graph_nodes(x, given, seen)
+    return seen
+
+
+def run_cyclic(case):
+    import glom
+    from glom import T, S
+    fns = {}
+    G = build_graph(case, fns)
+    ident = lambda x: x
+    pos = case['pos']
+    kw = {}
+    # (the failing alternative in front of a default fails in every mode: T['zz'])
+    if pos == 'coalesce':
+        spec = glom.Coalesce(T['zz'], default=G)
+    elif pos == 'sbind':
+        spec = glom.Pipe(S(x=G), S.x)              # (a chain in every mode)
+    elif pos == 'call':
+        spec = glom.Call(ident, args=(G,))
+    elif pos == 'tget':
+        spec = T.get('zz', G)
+    elif pos == 'match_dflt':
+        spec = glom.Match(str, default=G)
+    elif pos == 'switch_dflt':
+        spec = glom.Switch([(T['zz'], T)], default=G)
+    else:
+        spec = glom.Or(T['zz'], default=G)
+    if case.get('wrap') == 'fill':
+        spec = glom.Fill(spec)
+    elif case.get('wrap') == 'auto':
+        spec = glom.Auto(spec)
+    own = set(map(id, fns.get(('spec-containers',), [])))
+
+    def evaluate(tj):
+        target = ic.dec(tj, fns)
+        given = set(map(id, fns.get(('dec-objs',), [])))
+        try:
+            res = glom.glom(target, spec, **kw)
+        except Exception as e:
+            return {'err': ic.exc_name(e)}, True, None, given
+        finally:
+            del ic.LOG[:]
+        try:
+            g = {'ok': enc_graph(res, given, {})}
+        except ValueError as ve:
+            g = {'err': 'Unencodable:' + str(ve)[:80]}
+        fresh = not any(i in own for i in graph_nodes(res, given))
+        return g, fresh, res, given
+    graphs, fresh_all, rerun_same = [], True, True
+    for tj in case['targets']:
+        g, fresh, res, given = evaluate(tj)
+        graphs.append(g)
+        fresh_all = fresh_all and fresh
+        if res is not None:
+            # mutate every node of the rebuilt graph, evaluate the same spec object again
+            for o in graph_nodes(res, given).values():
+                if type(o) is list:
+                    o.append(ic.MARK)
+                else:
+                    o[ic.MARK] = ic.MARK
+            g2, fresh2, _, _ = evaluate(tj)
+            rerun_same = rerun_same and g2 == g
+            fresh_all = fresh_all and fresh2
+    out = dict(case)
+    out['impl_graphs'] = graphs
+    out['impl_fresh'] = fresh_all
+    out['impl_rerun_same'] = rerun_same
+    out['impl'] = graphs
+    return out
+
+
 def generate(rng, tier, scale, **focus):
     n = (1500 if tier == 'quick' else 30000) * scale
     for i in range(n):
+        if rng.random() < 0.06:
+            yield gen_cyclic(rng)
+            continue
         g = Gen(rng, {'extra': ['wrap', 'wrap', 'wrap', 'probe', 'probe', 'modeprobe', 'fillshape', 'switch', 'and'],
                       'scope': False})
         t = g.target()
@@ -87,14 +274,58 @@ def run_impl(case):
     result mutated in between, plus the identity observation of `ic.run_glom` (no mutable
     container of the spec is part of a result or reaches a callable)"""
     base = {k: v for k, v in case.items() if not k.startswith('impl')}
-    return ic.run_glom_mutating(base)
+    if base.get('kind') == 'cyclic':
+        return run_cyclic(base)
+    out = ic.run_glom_mutating(base)
+    if base['spec']['k'] == 'fill' and not base.get('scope'):
+        # Fill(spec).fill(target) is glom(target, Fill(spec))
+        fns = {}
+        try:
+            res = ic.build(base['spec'], fns).fill(ic.dec(base['target'], fns))
+        except Exception as e:
+            r = {'err': ic.exc_name(e)}
+        else:
+            try:
+                r = {'ok': ic.enc(res)}
+            except ValueError as ve:
+                r = {'err': 'Unencodable:' + str(ve)[:80]}
+        del ic.LOG[:]
+        if r != out['impl']:
+            out['impl_rerun_same'] = False
+            out['impl_fill_method'] = r
+    return out
 
 
-key = _c03.key
-shrink = _c03.shrink
+def key(case):
+    if case.get('kind') == 'cyclic':
+        return {k: case[k] for k in ('kind', 'pos', 'wrap', 'nodes', 'root', 'targets')}
+    return _c03.key(case)
+
+
+def shrink(case):
+    if case.get('kind') == 'cyclic':
+        base = {k: v for k, v in case.items() if not k.startswith('impl')}
+        if len(base['targets']) > 1:
+            for i in range(len(base['targets'])):
+                c = dict(base); c['targets'] = base['targets'][:i] + base['targets'][i + 1:]
+                yield c
+        if base.get('wrap'):
+            c = dict(base); c['wrap'] = None
+            yield c
+        for i, nd in enumerate(base['nodes']):
+            f = 'es' if nd['t'] == 'dict' else 'xs'
+            for m in range(len(nd[f])):
+                c = dict(base)
+                c['nodes'] = [dict(x) for x in base['nodes']]
+                c['nodes'][i][f] = nd[f][:m] + nd[f][m + 1:]
+                yield c
+        return
+    yield from _c03.shrink(case)
 
 
 def nontrivial(case, verdict):
+    if case.get('kind') == 'cyclic':
+        return True
     s = json.dumps(case['spec'])
     return any(('"k": "%s"' % w) in s for w in ('fill', 'auto', 'match', 'group')) and \
         ('"probe"' in s or '"k": "str"' in s or '"k": "tuple"' in s)
